@@ -1393,10 +1393,10 @@ impl Family for Cw1Family {
     }
     fn props(&self) -> Vec<PropSpec> {
         vec![
-            PropSpec { id: "C07", quick_cases: 15_000, thorough_cases: 30_000, floor: 3000, rule: "case = proxy flavour (70% cw1-subkeys, else cw1-whitelist), admin list of 0-3 entries from a 5-address pool (duplicates, invalid strings), mutable flag, up to 40 (thorough 100) op groups: Execute with 0-5 CosmosMsg of all 22 constructible kinds (amounts relative to the caller's visible allowance), Increase/DecreaseAllowance, SetPermissions, UpdateAdmins, Freeze, Advance; callers resolved against the current state (admin, granted subkey, plain, removed admin, fixed index incl. an outsider). Oracle: Execute ok => caller in pre AdminList, or (subkeys) every message covered by the pre-call visible allowance cumulatively in list order / by the pre-call permission flags; ok => Response.messages equal the submitted list (same order, reply_on never, no gas limit); non-Execute calls return no messages. Non-trivial: a non-admin caller submitted >=2 messages of >=2 kinds, or a list of >=2 messages whose last message is the only one its grants do not cover.", assumptions: ASSUME },
-            PropSpec { id: "C08", quick_cases: 10_000, thorough_cases: 20_000, floor: 500, rule: "cw1-subkeys only; same case type weighted towards Increase/Decrease (expiry none or relative to the moving block), Execute with 1-5 bank sends of 0-3 coins (same denom twice, zero amounts, ungranted denoms; amounts as fractions / remainder of the visible allowance), Advance, and a grant;advance;spend;re-grant arm. Oracle on the Allowance/Permissions queries of 6 addresses before and after every call: exact per-denom deduction of a non-admin's relayed sends, sends <= pre-visible allowance, exact increase (from the visible allowance, i.e. from zero once expired) / saturating decrease, frame condition for every other address and call, time only hides allowances, ledger relayed <= granted. Non-trivial: >=1 successful spend with >=2 sends or >=2 denoms, >=1 spend refused for amount or expiry, >=1 expiry crossed followed by a successful re-grant.", assumptions: ASSUME },
-            PropSpec { id: "C16", quick_cases: 8000, thorough_cases: 25_000, floor: 1200, rule: "states reached by C07-style histories of up to 25 (thorough 50) op groups on both proxies; every message of every Execute op is probed on the state before the call and 20 generated (valid sender, message) probes on the final state: CanExecute == (Execute{msgs:[msg]} on a clone of the store returns Ok). Non-trivial: the case contains >=1 non-admin probe answered true and >=1 bank-send probe of a subkey that holds or held an allowance answered false (amount or expiry).", assumptions: ASSUME },
-            PropSpec { id: "C17", quick_cases: 12_000, thorough_cases: 40_000, floor: 2300, rule: "both proxies (50/50), initial admin lists incl. empty/duplicates, 20% immutable; up to 40 (thorough 100) ops weighted towards UpdateAdmins/Freeze by current admins, removed admins, subkeys and strangers plus allowance/permission/Execute calls. Oracle: AdminList compared before/after every call (changes only by a successful UpdateAdmins/Freeze of a sender in the pre list while pre mutable; those calls never succeed otherwise; once immutable the response is identical forever); Allowance/Permissions of 6 addresses change only in successful calls of a pre-list admin, except a subkey's own spending. Non-trivial: >=1 successful UpdateAdmins that removes its sender, or a frozen proxy (Freeze or immutable instantiation) followed by >=2 UpdateAdmins/Freeze attempts of which >=1 by a listed admin.", assumptions: ASSUME },
+            PropSpec { id: "C07", quick_cases: 30000, thorough_cases: 30_000, floor: 6000, rule: "case = proxy flavour (70% cw1-subkeys, else cw1-whitelist), admin list of 0-3 entries from a 5-address pool (duplicates, invalid strings), mutable flag, up to 40 (thorough 100) op groups: Execute with 0-5 CosmosMsg of all 22 constructible kinds (amounts relative to the caller's visible allowance), Increase/DecreaseAllowance, SetPermissions, UpdateAdmins, Freeze, Advance; callers resolved against the current state (admin, granted subkey, plain, removed admin, fixed index incl. an outsider). Oracle: Execute ok => caller in pre AdminList, or (subkeys) every message covered by the pre-call visible allowance cumulatively in list order / by the pre-call permission flags; ok => Response.messages equal the submitted list (same order, reply_on never, no gas limit); non-Execute calls return no messages. Non-trivial: a non-admin caller submitted >=2 messages of >=2 kinds, or a list of >=2 messages whose last message is the only one its grants do not cover.", assumptions: ASSUME },
+            PropSpec { id: "C08", quick_cases: 30000, thorough_cases: 20_000, floor: 1500, rule: "cw1-subkeys only; same case type weighted towards Increase/Decrease (expiry none or relative to the moving block), Execute with 1-5 bank sends of 0-3 coins (same denom twice, zero amounts, ungranted denoms; amounts as fractions / remainder of the visible allowance), Advance, and a grant;advance;spend;re-grant arm. Oracle on the Allowance/Permissions queries of 6 addresses before and after every call: exact per-denom deduction of a non-admin's relayed sends, sends <= pre-visible allowance, exact increase (from the visible allowance, i.e. from zero once expired) / saturating decrease, frame condition for every other address and call, time only hides allowances, ledger relayed <= granted. Non-trivial: >=1 successful spend with >=2 sends or >=2 denoms, >=1 spend refused for amount or expiry, >=1 expiry crossed followed by a successful re-grant.", assumptions: ASSUME },
+            PropSpec { id: "C16", quick_cases: 24000, thorough_cases: 25_000, floor: 3600, rule: "states reached by C07-style histories of up to 25 (thorough 50) op groups on both proxies; every message of every Execute op is probed on the state before the call and 20 generated (valid sender, message) probes on the final state: CanExecute == (Execute{msgs:[msg]} on a clone of the store returns Ok). Non-trivial: the case contains >=1 non-admin probe answered true and >=1 bank-send probe of a subkey that holds or held an allowance answered false (amount or expiry).", assumptions: ASSUME },
+            PropSpec { id: "C17", quick_cases: 36000, thorough_cases: 40_000, floor: 6900, rule: "both proxies (50/50), initial admin lists incl. empty/duplicates, 20% immutable; up to 40 (thorough 100) ops weighted towards UpdateAdmins/Freeze by current admins, removed admins, subkeys and strangers plus allowance/permission/Execute calls. Oracle: AdminList compared before/after every call (changes only by a successful UpdateAdmins/Freeze of a sender in the pre list while pre mutable; those calls never succeed otherwise; once immutable the response is identical forever); Allowance/Permissions of 6 addresses change only in successful calls of a pre-list admin, except a subkey's own spending. Non-trivial: >=1 successful UpdateAdmins that removes its sender, or a frozen proxy (Freeze or immutable instantiation) followed by >=2 UpdateAdmins/Freeze attempts of which >=1 by a listed admin.", assumptions: ASSUME },
         ]
     }
     fn strategy(&self, prop: &str, tier: Tier) -> BoxedStrategy<Case> {
